@@ -1,4 +1,5 @@
 import GoPlugin.Props.C05
+import GoPlugin.Props.C04
 import GoPlugin.Generated.Facts
 /- C05 at the facts extracted from the current source. -/
 namespace GoPlugin.Instance.C05
@@ -20,5 +21,10 @@ theorem cmdrunner_facts_good : Facts.cmdRunner.Good := by decide
 
 theorem holds_cmd_kill_reaches (c : CmdRunner.CmdCfg) : CmdRunner.killReaches Facts.cmdRunner c = true :=
   cmd_kill_reaches _ cmdrunner_facts_good c
+
+/-- a custom runner whose own `Start` failed after it created the process: the later Kill reaches it (fact of C04's model) -/
+theorem holds_failed_runner_start_is_killed :
+    (Kill.killStartFailed Facts.kill).returns = true ∧ (Kill.killStartFailed Facts.kill).procDead = true :=
+  ⟨(Props.C04.failed_runner_start_is_killed _ (by decide)).1, (Props.C04.failed_runner_start_is_killed _ (by decide)).2.2.1⟩
 
 end GoPlugin.Instance.C05
